@@ -173,6 +173,74 @@ def probe_refusals():
         shutil.rmtree(d, ignore_errors=True)
 
 
+def fork_probe():
+    """exclusion across PROCESSES with objects created before the fork (what `@barrier(cache, RLock)` at
+    import time followed by fork-started workers amounts to): while the parent holds the resource a forked
+    child's acquire must not succeed (it gets 0.4 s to try), it must succeed once the parent has
+    released, and a child must not be able to release what the parent holds"""
+    import shutil
+    import signal
+    import tempfile
+    import diskcache
+    from diskcache import recipes
+    root = os.environ.get('VERIF_SCRATCH') or tempfile.gettempdir()
+    bad = []
+
+    def child_try(obj, action):
+        """fork; the child performs `action(obj)` under a 0.4 s alarm.  -> 'done' | 'blocked' | 'raised:<E>'"""
+        r, w = os.pipe()
+        pid = os.fork()
+        if pid == 0:
+            try:
+                os.close(r)
+                signal.signal(signal.SIGALRM, signal.SIG_DFL)
+                signal.setitimer(signal.ITIMER_REAL, 0.4)
+                try:
+                    action(obj)
+                    os.write(w, b'done')
+                except BaseException as e:        # noqa
+                    os.write(w, ('raised:' + type(e).__name__).encode())
+            finally:
+                os._exit(0)
+        os.close(w)
+        data = b''
+        while True:
+            chunk = os.read(r, 100)
+            if not chunk:
+                break
+            data += chunk
+        os.close(r)
+        os.waitpid(pid, 0)
+        return data.decode() or 'blocked'
+    for name, make in (('Lock', lambda c: recipes.Lock(c, 'res')), ('RLock', lambda c: recipes.RLock(c, 'res')),
+                       ('BoundedSemaphore(1)', lambda c: recipes.BoundedSemaphore(c, 'res', value=1))):
+        d = tempfile.mkdtemp(prefix='fork-', dir=root)
+        try:
+            cache = diskcache.Cache(d)
+            obj = make(cache)              # created BEFORE any fork
+            obj.acquire()
+            got = child_try(obj, lambda o: o.acquire())
+            if got != 'blocked':
+                bad.append('%s created before fork(): a forked child acquired it while the parent held it (%s)' % (name, got))
+            if name == 'RLock':
+                got = child_try(obj, lambda o: o.release())
+                if got == 'done':
+                    bad.append('RLock created before fork(): a forked child released the lock the parent holds')
+                try:
+                    obj.release()
+                except AssertionError:
+                    bad.append('RLock: the parent could no longer release its own lock after a child tried to')
+            else:
+                obj.release()
+            got = child_try(obj, lambda o: (o.acquire(), o.release()))
+            if got != 'done':
+                bad.append('%s: a forked child could not acquire the free resource (%s)' % (name, got))
+            cache.close()
+        finally:
+            shutil.rmtree(d, ignore_errors=True)
+    return bad
+
+
 def run(tier, seed, rng, known, replay):
     n_cases = 40 if tier == 'quick' else 400
     if replay:
@@ -223,13 +291,15 @@ def run(tier, seed, rng, known, replay):
     v = probe_refusals()
     if v:
         violations.append({'replay': {'property': 'C15', 'kind': 'probe', 'acceptor': v}, 'found_input': True, 'what': v})
+    for v in fork_probe()[:2]:
+        violations.append({'replay': {'property': 'C15', 'kind': 'fork-probe', 'acceptor': v}, 'found_input': True, 'what': v})
     kinds = {}
     for c in cases:
         kinds[c['kind']] = kinds.get(c['kind'], 0) + 1
     return {
         'evaluations': runs, 'distinct_nontrivial': len({l for l in lines}),
         'rule': 'per seeded case: Lock / RLock (optionally nested, optionally a stray release) / BoundedSemaphore(1..3) / barrier, 2-4 contenders with own or '
-                'shared Cache objects, Cache or FanoutCache, 1-2 rounds each, under seeded random schedules at action granularity; distinct = distinct event sequences',
+                'shared Cache objects, Cache or FanoutCache, 1-2 rounds each, under seeded random schedules at action granularity; plus forked child processes contending with objects created before the fork; distinct = distinct event sequences',
         'samples': [{'kind': cases[0]['kind'], 'clients': cases[0]['clients'], 'events': cases[0]['results'][0]['events'][:30]}],
         'traces': runs,
         'dist': {'cases': len(cases), 'runs': runs, 'kinds': kinds, 'blocked_attempts_observed': fails},
